@@ -200,6 +200,12 @@ def run(shard, rec):
                 if tp == 'fxp' and fn == 'mode':
                     X = [float(v) for v in gen_data(rng, 'int', n)]        # mode is defined for discrete data: integral values required (documented ValueError otherwise)
                 Y = gen_data(rng, tp, n) if fn in ('covariance', 'correlation', 'linear_regression') else None
+                if tp == 'fxp' and fn == 'correlation' and rng.random() < 0.5:
+                    # moderate spread: sums of squared deviations around 10^3 each (their product far above 2^16), correlated or not
+                    n = rng.randint(6, 10)
+                    X = [rng.randint(0, 36 * 4) / 4 for _ in range(n)]
+                    slope = rng.choice([-1, 0, 1])
+                    Y = [min(40.0, max(-40.0, slope * x + rng.randint(-12 * 4, 12 * 4) / 4)) if slope else rng.randint(0, 36 * 4) / 4 for x in X]
                 todo.append((tp, fn, X, Y, rng.randint(1, 10)))
         for (tp, fn, X, Y, nq) in todo:
             T = mpc.SecInt(32) if tp == 'int' else mpc.SecFxp(32, 16)
